@@ -360,7 +360,7 @@ func init() {
 	cases := []lf{{1, 3}, {1, 1}, {24, 30}, {24, 2}, {168, 200}, {720, 800}}
 	// (also for C19: a creation that fails while EXPIRED own files sit in the directory - whatever the appender does about
 	// them then, the log call returns)
-	registerFamily(Fam{Prop: "C19", Name: "c19/failed-creation-among-expired-files", Tiers: "qt",
+	registerFamily(Fam{Prop: "C19", Name: "c19/failed-creation-among-expired-files", Tiers: "qt", Early: true,
 		Count: func(string) int { return len(cases) },
 		Make: func(tier string, i int) *zzvrt.Scenario {
 			b := zzvrt.Bounds{Preempt: 1, Horizon: 5000}
